@@ -156,10 +156,13 @@ class Ctx:
 
     # ------------------------------------------------------------------ TLC
     def tlc(self, module, cfg=None, *, workers=16, simulate=None, depth=None, dump=None, env=None,
-            timeout=900, coverage=False, extra=(), heap="8g", count=True, deadlock=None, tag=None):
+            timeout=None, coverage=False, extra=(), heap="8g", count=True, deadlock=None, tag=None):
         """Run TLC on spec/<module>.tla with spec/<cfg>. Returns TlcResult (never raises on a
         property violation; raises MachineryError on crash / timeout / parse errors)."""
         cfg = cfg or module + ".cfg"
+        if timeout is None:
+            # generous: a loaded machine must not turn a slow TLC run into a broken check (quick runs take seconds to a few minutes)
+            timeout = 1800 if self.quick else 7200
         meta = os.path.join(self.work, f"meta-{next(_COUNTER)}")
         cmd = ["java", "-XX:+UseParallelGC", f"-Xmx{heap}", "-Xss64m", "-cp", TLA_CP, "tlc2.TLC",
                "-workers", str(workers), "-metadir", meta, "-noGenerateSpecTE", "-config", cfg]
@@ -245,7 +248,7 @@ class Ctx:
                                  f"{r.violated or r.error}\n{tail}")
         return r
 
-    def apalache_expect_ok(self, relpath, init, inv, length, timeout=1500, tag=""):
+    def apalache_expect_ok(self, relpath, init, inv, length, timeout=5400, tag=""):
         """Run apalache-mc check on spec/<relpath>; anything but 'EXITCODE: OK' is a machinery failure (the specification's own
         invariant is not inductive / Apalache unavailable), never a verdict on the code."""
         import subprocess
